@@ -24,6 +24,7 @@ double nondet_f64(void);
 uint64_t vf_in[VF_MAX_IN];
 unsigned vf_nin;
 int vf_nowrap; /* see shim/immintrin.h */
+unsigned vf_tid; /* emulated thread of the running call (library built with -DVF_TLS_EMUL, see vf.core TLS rewrite) */
 /* CBMC's fma() model calls feraiseexcept() (which asserts) for inf*0 / inf-inf operands; floating-point
  * exception flags are not part of any property, and with this empty body the operand classification is
  * sliced away instead of being bit-blasted in every memory-safety run */
